@@ -109,6 +109,8 @@ pub enum Sel {
     /// matches the filler <p class="k"> when it is inside the target
     PK,
     Nothing,
+    /// Some(""): behaves as no selector
+    Empty,
 }
 
 #[derive(Clone, Debug, Serialize, Deserialize)]
@@ -125,6 +127,7 @@ impl Filt {
             Sel::None => None,
             Sel::PK => Some("p.k"),
             Sel::Nothing => Some("span.nomatch"),
+            Sel::Empty => Some(""),
         };
         FilterSpec::html(&self.action, &p, sel, &self.value)
     }
@@ -133,7 +136,7 @@ impl Filt {
 /// reference edit of one occurrence
 fn edit_occurrence(f: &Filt, kind: &TargetKind, open: &str, inner: &str, close: &str, inner_fillers: &[usize]) -> String {
     let selector_matches = match f.selector {
-        Sel::None => None,
+        Sel::None | Sel::Empty => None,
         Sel::PK => Some(inner_fillers.contains(&P_K)),
         Sel::Nothing => Some(false),
     };
@@ -219,7 +222,10 @@ pub fn check(case: &Case) -> Option<(String, String)> {
 
 pub fn replay(case: &Value) -> Vec<String> {
     match serde_json::from_value::<Case>(case.clone()) {
-        Ok(c) => check(&c).into_iter().map(|(s, _)| s).collect(),
+        Ok(c) => match crate::common::guarded(|| check(&c)) {
+            Ok(r) => r.into_iter().map(|(s, _)| s).collect(),
+            Err((loc, _)) => vec![format!("panic:{loc}")],
+        },
         Err(_) => vec![],
     }
 }
@@ -245,7 +251,7 @@ fn filler_lists(max: usize) -> Vec<Vec<usize>> {
 pub fn filters() -> Vec<Filt> {
     let mut v = Vec::new();
     for action in ["append_child", "prepend_child", "replace"] {
-        for selector in [Sel::None, Sel::PK, Sel::Nothing] {
+        for selector in [Sel::None, Sel::PK, Sel::Nothing, Sel::Empty] {
             for value in [V1, V2] {
                 v.push(Filt { action: action.to_string(), selector: selector.clone(), value: value.to_string() });
             }
@@ -362,7 +368,11 @@ pub fn run(tier: Tier) -> i32 {
     let samples = Samples::new(6);
     par_range(ctx.threads, cases.len(), |i| {
         ctx.eval(1);
-        if let Some((sig, what)) = check(&cases[i]) {
+        let res = match crate::common::guarded(|| check(&cases[i])) {
+            Ok(r) => r,
+            Err((loc, msg)) => Some((format!("panic:{loc}"), format!("panicked at {loc}: {msg}; case {:?}", cases[i]))),
+        };
+        if let Some((sig, what)) = res {
             let w = match &cases[i] {
                 Case::One(d, _) => d.serialize().len() as u64,
                 Case::Two { .. } => 500,
